@@ -415,3 +415,144 @@ impl VWal {
         Ok((a.needs_redo.iter().cloned().collect(), a.needs_undo.iter().cloned().collect()))
     }
 }
+
+// ---------------------------------------------------------------------------------------------
+// Row versions (tuples)
+
+#[derive(Clone, Debug, PartialEq)]
+pub enum VVal {
+    Null,
+    Bool(bool),
+    Int(i32),
+    BigInt(i64),
+    UInt(u32),
+    BigUInt(u64),
+    Float(f32),
+    Double(f64),
+    Text(String),
+}
+
+#[derive(Clone, Copy, Debug, PartialEq, Eq)]
+pub enum VValKind {
+    Bool,
+    Int,
+    BigInt,
+    UInt,
+    BigUInt,
+    Float,
+    Double,
+    Text,
+}
+
+impl VVal {
+    fn to_dt(&self) -> DataType {
+        match self {
+            VVal::Null => DataType::Null,
+            VVal::Bool(b) => DataType::Bool(crate::types::bool::Bool(*b)),
+            VVal::Int(x) => DataType::Int(Int32(*x)),
+            VVal::BigInt(x) => DataType::BigInt(Int64(*x)),
+            VVal::UInt(x) => DataType::UInt(crate::types::UInt32(*x)),
+            VVal::BigUInt(x) => DataType::BigUInt(UInt64(*x)),
+            VVal::Float(x) => DataType::Float(crate::types::Float32(*x)),
+            VVal::Double(x) => DataType::Double(Float64(*x)),
+            VVal::Text(s) => DataType::Blob(Blob::from(s.as_str())),
+        }
+    }
+    fn from_dt(d: &DataType) -> VVal {
+        match d {
+            DataType::Null => VVal::Null,
+            DataType::Bool(b) => VVal::Bool(b.0),
+            DataType::Int(x) => VVal::Int(x.0),
+            DataType::BigInt(x) => VVal::BigInt(x.0),
+            DataType::UInt(x) => VVal::UInt(x.0),
+            DataType::BigUInt(x) => VVal::BigUInt(x.0),
+            DataType::Float(x) => VVal::Float(x.0),
+            DataType::Double(x) => VVal::Double(x.0),
+            DataType::Blob(b) => VVal::Text(b.to_string_lossy_unchecked()),
+        }
+    }
+}
+
+fn kind_to_dt(k: VValKind) -> DataTypeKind {
+    match k {
+        VValKind::Bool => DataTypeKind::Bool,
+        VValKind::Int => DataTypeKind::Int,
+        VValKind::BigInt => DataTypeKind::BigInt,
+        VValKind::UInt => DataTypeKind::UInt,
+        VValKind::BigUInt => DataTypeKind::BigUInt,
+        VValKind::Float => DataTypeKind::Float,
+        VValKind::Double => DataTypeKind::Double,
+        VValKind::Text => DataTypeKind::Blob,
+    }
+}
+
+/// Reader snapshot: (own id, xmin, last committed id, active ids, aborted ids).
+#[derive(Clone, Debug)]
+pub struct VSnapshot {
+    pub xid: u64,
+    pub xmin: u64,
+    pub xmax: Option<u64>,
+    pub active: Vec<u64>,
+    pub aborted: Vec<u64>,
+}
+
+impl VSnapshot {
+    fn to_snapshot(&self) -> Snapshot {
+        Snapshot::new(self.xid, self.xmin, self.xmax, self.active.iter().cloned().collect(), self.aborted.iter().cloned().collect())
+    }
+}
+
+pub struct VTuple {
+    tuple: Tuple,
+    schema: Schema,
+}
+
+impl VTuple {
+    /// `keys` columns first (the key of the row), then `values` columns.
+    pub fn build(keys: &[VValKind], values: &[VValKind], row: &[VVal], xmin: u64) -> Result<VTuple, String> {
+        let mut cols = vec![];
+        for (i, k) in keys.iter().enumerate() {
+            cols.push(Column::new_with_defaults(kind_to_dt(*k), &format!("k{}", i)));
+        }
+        for (i, k) in values.iter().enumerate() {
+            cols.push(Column::new_with_defaults(kind_to_dt(*k), &format!("v{}", i)));
+        }
+        let schema = Schema::new_table_with_num_keys(cols, keys.len());
+        let r = Row::new(row.iter().map(|v| v.to_dt()).collect::<Vec<_>>().into_boxed_slice());
+        let tuple = TupleBuilder::from_schema(&schema).build(&r, xmin).map_err(|e| e.to_string())?;
+        Ok(VTuple { tuple, schema })
+    }
+
+    /// New version: `changes` = (value column index, new value), created by `new_xmin`.
+    pub fn add_version(&mut self, changes: &[(usize, VVal)], new_xmin: u64) -> Result<(), String> {
+        let m: std::collections::HashMap<usize, DataType> = changes.iter().map(|(i, v)| (*i, v.to_dt())).collect();
+        self.tuple.add_version_with(&m, new_xmin, &self.schema).map_err(|e| e.to_string())
+    }
+
+    pub fn delete(&mut self, xid: u64) -> Result<(), String> {
+        self.tuple.delete(xid).map_err(|e| e.to_string())
+    }
+
+    /// Trim history below `horizon`; returns bytes freed.
+    pub fn vacuum(&mut self, horizon: u64) -> Result<usize, String> {
+        self.tuple.vaccum_with(horizon, &self.schema).map_err(|e| e.to_string())
+    }
+
+    pub fn bytes(&self) -> Vec<u8> {
+        self.tuple.effective_data().to_vec()
+    }
+
+    /// Decode from raw bytes (what a page read does), then the latest version.
+    pub fn decode_last(&self) -> Result<Vec<VVal>, String> {
+        let t = Tuple::from_slice_unchecked(self.tuple.effective_data()).map_err(|e| e.to_string())?;
+        let row = Row::from_bytes_checked(t.effective_data(), &self.schema).map_err(|e| e.to_string())?;
+        Ok(row.iter().map(VVal::from_dt).collect())
+    }
+
+    /// The version a reader with this snapshot is entitled to, or None.
+    pub fn decode_for(&self, s: &VSnapshot) -> Result<Option<Vec<VVal>>, String> {
+        let snap = s.to_snapshot();
+        let row = Row::from_bytes_checked_with_snapshot(self.tuple.effective_data(), &self.schema, &snap).map_err(|e| e.to_string())?;
+        Ok(row.map(|r| r.iter().map(VVal::from_dt).collect()))
+    }
+}
